@@ -3,6 +3,7 @@ package c09
 import (
 	"context"
 	"encoding/xml"
+	"errors"
 	"fmt"
 	"math/rand"
 	"sort"
@@ -415,6 +416,10 @@ var helpers = []helper{
 			steps++
 			if e.more(steps - 1) {
 				consumePayload(payload)
+			} else if steps%2 == 0 {
+				// an application that cannot use this stage's answer and gives up
+				e.c.Count("foreach_callbacks_that_gave_up", 1)
+				return commands.Command{}, nil, errors.New("verif: the application gives up")
 			}
 			if steps > 4 {
 				return resp.Cancel(), nil, nil
